@@ -480,9 +480,11 @@ static gd_entry_t *_GD_Add(DIRFILE *restrict D,
       else if (!(mask & 1) && E->EN(bit,bitnum) < 0)
         _GD_SetError(D, GD_E_BAD_ENTRY, GD_E_ENTRY_BITNUM, NULL,
             entry->EN(bit,bitnum), NULL);
-      else if (!(mask & 3) && E->EN(bit,bitnum) + E->EN(bit,numbits) - 1 > 63)
+      else if (!(mask & 3) && (E->EN(bit,numbits) > 64 ||
+            E->EN(bit,bitnum) > 64 - E->EN(bit,numbits)))
         _GD_SetError(D, GD_E_BAD_ENTRY, GD_E_ENTRY_BITSIZE, NULL,
-            E->EN(bit,bitnum) + E->EN(bit,numbits) - 1, NULL);
+            (int)((unsigned)E->EN(bit,bitnum) + (unsigned)E->EN(bit,numbits)
+              - 1U), NULL);
       break;
     case GD_PHASE_ENTRY:
       E->EN(phase,shift) = entry->EN(phase,shift);
